@@ -24,7 +24,7 @@ import egsim  # noqa: F401
 from egsim import engine, gen
 from edgegraph.structure import singleton
 
-CLASS_NAMES = ["A", "A1", "B", "C", "D", "E"]
+CLASS_NAMES = ["A", "A1", "B", "C", "D", "E", "F"]
 
 # argument pool, chosen to collide: -1/-2 (equal hashes, unequal values),
 # 1 / 1.0 / True (equal values), tuples built afresh on every use, strings
@@ -46,15 +46,27 @@ def hash_kwnames(args, kwargs):
     return ",".join(sorted(kwargs))
 
 
-def make_classes():
-    """Fresh classes (and so fresh, empty registries) for one run."""
+def make_classes(hook=None):
+    """
+    Fresh classes (and so fresh, empty registries) for one run.  `hook` is a
+    one-slot dict: when hook["fn"] is set, every __init__ calls it -- user code
+    running in the middle of a construction (it may clear a registry or
+    construct something else before the instance being built is registered).
+    """
+    hook = hook if hook is not None else {"fn": None}
 
-    def body(name):
+    def body(name, **extra):
         def __init__(self, *args, **kwargs):
             self.init_count = getattr(self, "init_count", 0) + 1
             self.init_args = (args, dict(kwargs))
+            fn = hook["fn"]
+            if fn is not None:
+                hook["fn"] = None  # one shot
+                fn(self)
 
-        return {"__init__": __init__, "__qualname__": name}
+        d = {"__init__": __init__, "__qualname__": name}
+        d.update(extra)
+        return d
 
     m_a = singleton.semi_singleton_metaclass()
     m_bc = singleton.semi_singleton_metaclass()
@@ -66,7 +78,10 @@ def make_classes():
     Cc = m_bc("C", (object,), body("C"))
     D = m_d("D", (object,), body("D"))
     E = m_e("E", (object,), body("E"))
-    return {"A": A, "A1": A1, "B": B, "C": Cc, "D": D, "E": E}
+    m_f = singleton.semi_singleton_metaclass()
+    # instances with their own (false) truth value
+    F = m_f("F", (object,), body("F", __bool__=lambda self: False))
+    return {"A": A, "A1": A1, "B": B, "C": Cc, "D": D, "E": E, "F": F}
 
 
 def model_key(cls, args, kwargs):
@@ -80,7 +95,8 @@ def model_key(cls, args, kwargs):
 class St:
     def __init__(self, cfg):
         self.cfg = cfg
-        self.classes = make_classes()
+        self.hook = {"fn": None}
+        self.classes = make_classes(self.hook)
         self.inst = {}  # instance label -> object
         self.label = {}  # id(obj) -> label
         self.inst_cls = {}  # instance label -> class name it was created by
@@ -138,6 +154,10 @@ class C17(engine.Property):
         "drop-absent-key",
         "clear-with-other-classes-live",
         "add_mapping-alias",
+        "user-code-during-construction:clear",
+        "user-code-during-construction:construct",
+        "user-code-during-construction:drop",
+        "falsy-instance-class-used",
     ]
 
     def make_config(self, rng):
@@ -156,6 +176,7 @@ class C17(engine.Property):
             "pool": sorted(pool),
             "p_kwargs": rng.choice([0.0, 0.3, 0.6]),
             "max_args": rng.choice([1, 1, 2, 3]),
+            "p_during": rng.choice([0.0, 0.0, 0.15, 0.4]),
             "weights": gen.swarm_weights(
                 rng,
                 ["construct", "add_mapping", "drop", "check", "get_all", "clear"],
@@ -188,6 +209,18 @@ class C17(engine.Property):
             kwargs = [[nm, ARG_POOL[rng.choice(cfg["pool"])]] for nm in names]
         return args, kwargs
 
+    def _during(self, rng, cfg, st, outer):
+        """Something the outer __init__ does before its instance is registered."""
+        r = rng.random()
+        cls = rng.choice(cfg["classes"])
+        if r < 0.45:
+            return {"op": "clear", "cls": rng.choice([outer["cls"], cls])}
+        if r < 0.6:
+            args, kwargs = self._args(rng, cfg, st, cls)
+            return {"op": "drop", "cls": cls, "args": args, "kwargs": kwargs}
+        args, kwargs = self._args(rng, cfg, st, cls)
+        return {"op": "construct", "cls": cls, "args": args, "kwargs": kwargs, "new": st.namer.new("i")}
+
     def next_op(self, rng, cfg, st):
         for _ in range(20):
             kind = gen.weighted_choice(rng, cfg["weights"])
@@ -197,6 +230,8 @@ class C17(engine.Property):
                 op = {"op": kind, "cls": cls, "args": args, "kwargs": kwargs}
                 if kind == "construct":
                     op["new"] = st.namer.new("i")
+                    if rng.random() < cfg.get("p_during", 0.0):
+                        op["during"] = self._during(rng, cfg, st, op)
                 return op
             if kind == "add_mapping" and st.inst:
                 obj = rng.choice(sorted(st.inst))
@@ -234,9 +269,21 @@ class C17(engine.Property):
         if k == "construct":
             self._probes_construct(st, cls, args, kwargs, key)
             live = st.model[cls].get(key)
+            during = op.get("during")
+            if during is not None and live is None:
+                dk = None
+                if during["op"] in ("construct", "drop"):
+                    dargs, dkwargs = call_args(during)
+                    dk = model_key(during["cls"], dargs, dkwargs)
+                same_key = during["op"] == "construct" and (during["cls"], dk) == (cls, key)
+                if during["cls"] in st.classes and not same_key:
+                    s["probe:user-code-during-construction:" + during["op"]] += 1
+                    s["fault:reentrant-call-during-init"] += 1
+                    st.hook["fn"] = lambda _self, d=during: self._nested(st, d)
             try:
                 obj = klass(*args, **kwargs)
             except Exception as exc:  # pylint: disable=broad-except
+                st.hook["fn"] = None
                 return {"exc": type(exc).__name__}, engine.viol(
                     "C17/construction-raised", {"op": op, "exc": type(exc).__name__}
                 )
@@ -369,10 +416,42 @@ class C17(engine.Property):
             v = self._requery(st, op)
         return out, v
 
+    def _nested(self, st, d):
+        """Runs inside an __init__: a registry operation, mirrored in the model."""
+        klass = st.classes[d["cls"]]
+        if d["op"] == "clear":
+            singleton.clear_semi_singleton(klass)
+            st.model[d["cls"]] = {}
+            st.keyargs[d["cls"]] = {}
+            return
+        args, kwargs = call_args(d)
+        key = model_key(d["cls"], args, kwargs)
+        if d["op"] == "drop":
+            try:
+                singleton.drop_semi_singleton_mapping(klass, *args, **kwargs)
+            except Exception:  # pylint: disable=broad-except
+                pass
+            if key in st.model[d["cls"]]:
+                del st.model[d["cls"]][key]
+                del st.keyargs[d["cls"]][key]
+            return
+        live = st.model[d["cls"]].get(key)
+        obj = klass(*args, **kwargs)
+        if live is None and d["new"] not in st.inst and id(obj) not in st.label:
+            lab = d["new"]
+            st.inst[lab] = obj
+            st.label[id(obj)] = lab
+            st.inst_cls[lab] = d["cls"]
+            st.inits[lab] = getattr(obj, "init_count", None)
+            st.model[d["cls"]][key] = lab
+            st.keyargs[d["cls"]][key] = (d["args"], d["kwargs"])
+
     def _probes_construct(self, st, cls, args, kwargs, key):
         s = st.stats
         if cls in ("A1",):
             s["probe:subclass-of-semi-singleton-constructed"] += 1
+        if cls == "F":
+            s["probe:falsy-instance-class-used"] += 1
         if cls in ("B", "C") and st.model["B" if cls == "C" else "C"]:
             s["probe:shared-metaclass-both-classes-used"] += 1
         for c in st.cfg["classes"]:
